@@ -1,9 +1,319 @@
-"""Property-specific extra explorations (relational oracles, scale families, feature builds)."""
+"""Property-specific extra explorations: relational oracles evaluated by the harness on the
+implementation, scale families in isolated child processes, feature-set builds, threads."""
+import subprocess, os, json, collections, re
 
-def nothing(pid, cfg, tier, seed, exe, chk, violations, broken, notes):
-    return {}
+ENV = dict(os.environ, CARGO_NET_OFFLINE='true')
 
-SPECIALS = collections_default = {}
-for name in ['scale_parse', 'ns_scale', 'hoist', 'illform', 'entities', 'scale_api', 'shift', 'errshift',
-             'limits', 'dtdpairs', 'ord', 'features', 'threads']:
-    SPECIALS[name] = nothing
+def _hexdecode(h):
+    try:
+        return bytes.fromhex(h).decode('utf-8', errors='replace')
+    except Exception:
+        return h
+
+def run_verdicts(exe, cmd, seed, cases, timeout=900, jobs=16):
+    """Run `roxh <cmd> <seed>` over CASE lines (split into chunks); returns (n_ok, fails, crashes)."""
+    if not cases:
+        return 0, [], []
+    n = max(1, min(jobs, len(cases) // 40 + 1))
+    chunks = [cases[i::n] for i in range(n)]
+    procs = []
+    for c in chunks:
+        p = subprocess.Popen([exe, cmd, str(seed)], stdin=subprocess.PIPE, stdout=subprocess.PIPE,
+                             stderr=subprocess.PIPE, text=True, env=ENV)
+        procs.append((p, c))
+    ok, fails, crashes = 0, [], []
+    import threading
+    results = [None] * len(procs)
+    def work(i, p, c):
+        try:
+            out, err = p.communicate('\n'.join(c) + '\n', timeout=timeout)
+            results[i] = (out, p.returncode, err)
+        except subprocess.TimeoutExpired:
+            p.kill()
+            out, err = p.communicate()
+            results[i] = (out, -9, 'timeout')
+    ths = [threading.Thread(target=work, args=(i, p, c)) for i, (p, c) in enumerate(procs)]
+    for t in ths: t.start()
+    for t in ths: t.join()
+    for (out, rc, err), (p, c) in zip(results, procs):
+        seen = set()
+        for l in out.split('\n'):
+            if l.startswith('VERDICT '):
+                f = l.split(' ', 3)
+                seen.add(f[1])
+                if f[2] == 'ok':
+                    ok += 1
+                else:
+                    what, _, hx = (f[3] if len(f) > 3 else '').partition(' | ')
+                    fails.append({'id': f[1], 'what': what, 'inputs_hex': hx.split(' '),
+                                  'inputs': [_hexdecode(h) for h in hx.split(' ')]})
+        if rc != 0:
+            crashes.append({'cmd': cmd, 'rc': rc, 'stderr': (err or '')[-300:], 'n_cases': len(c)})
+    return ok, fails, crashes
+
+def add_fails(violations, fails, kind):
+    for f in fails[:50]:
+        case = {'text': f['inputs'][0] if f['inputs'] else '', 'text_hex': f['inputs_hex'][0] if f['inputs_hex'] else '',
+                'allow_dtd': True, 'nodes_limit': 4294967295, 'id': f['id']}
+        if len(f['inputs']) > 1:
+            case['second_text'] = f['inputs'][1]
+            case['second_text_hex'] = f['inputs_hex'][1]
+        violations.append({'kind': kind, 'what': f['what'], 'case': case, 'concrete': True})
+
+def scale_run(exe, fam, n, timeout):
+    """one scale-family member in its own process; returns (status, lines)"""
+    try:
+        r = subprocess.run([exe, 'scale', fam, str(n)], capture_output=True, text=True, timeout=timeout, env=ENV)
+        return ('ok' if r.returncode == 0 else f'abort rc={r.returncode}'), r.stdout.strip().split('\n'), r.stderr[-300:]
+    except subprocess.TimeoutExpired:
+        return 'timeout', [], ''
+
+def sp_scale(apis):
+    def f(pid, cfg, tier, seed, exe, chk, violations, broken, notes):
+        big = tier == 'thorough'
+        fams = [('nest', 200000 if big else 30000), ('nest', 1000000 if big else 100000), ('nest-unclosed', 1000000 if big else 100000),
+                ('nest-attr', 100000 if big else 20000), ('siblings', 100000), ('attrs', 100000 if big else 3000), ('nsdecls', 60000 if big else 3000),
+                ('text', 400000 if big else 100000), ('text-cr', 200000 if big else 50000), ('comments', 100000),
+                ('entity-nest', 9), ('entity-nest', 10), ('entity-nest', 11), ('entity-nest', 200),
+                ('toprefs', 100000), ('nonascii-lines', 100000 if big else 20000)]
+        if apis:
+            fams = [('nest', 100000 if big else 20000), ('siblings', 100000), ('nonascii-lines', 100000 if big else 20000),
+                    ('attrs', 20000 if big else 2000), ('nsdecls', 20000 if big else 2000), ('text', 100000)]
+        dist = collections.Counter()
+        samples = []
+        for fam, n in fams:
+            st, lines, err = scale_run(exe, fam, n, 600 if big else 240)
+            dist['scale:' + st] += 1
+            desc = f'scale family {fam} n={n}'
+            if st != 'ok':
+                violations.append({'kind': 'crash', 'what': f'{desc}: process {st} {err}', 'concrete': True,
+                                   'case': {'generator': f'roxh scale {fam} {n}'}})
+            for l in lines:
+                if ' parse=panic' in l or (l.startswith('SCALEAPI') and ' panic' in l):
+                    violations.append({'kind': 'impl-oracle', 'what': f'{desc}: {l}', 'concrete': True,
+                                       'case': {'generator': f'roxh scale {fam} {n}'}})
+            if len(samples) < 3 and lines:
+                samples.append({'scale': lines[0]})
+        return {'evaluations': len(fams), 'distribution': dist, 'samples': samples, 'extra_distinct': len(fams)}
+    return f
+
+def sp_ns_scale(pid, cfg, tier, seed, exe, chk, violations, broken, notes):
+    res = {'evaluations': 0, 'samples': [], 'extra_distinct': 0}
+    plan = [(65534, 'default', 'ok'), (65535, 'default', 'ok'), (65536, 'default', 'limit'), (65535, 'prefixed', 'ok'), (65536, 'prefixed', 'limit')]
+    if tier == 'quick':
+        plan = [(65535, 'default', 'ok'), (65536, 'default', 'limit'), (65536, 'prefixed', 'limit')]
+    for n, mode, expect in plan:
+        try:
+            r = subprocess.run([exe, 'nsscale', str(n), mode], capture_output=True, text=True, timeout=600, env=ENV)
+            line = r.stdout.strip()
+        except subprocess.TimeoutExpired:
+            line = 'timeout'
+        res['evaluations'] += 1
+        res['extra_distinct'] += 1
+        good = (expect == 'ok' and ' ok bad=0' in line) or (expect == 'limit' and 'NamespacesLimitReached' in line)
+        if not good:
+            violations.append({'kind': 'impl-oracle', 'concrete': True,
+                               'what': f'{n} distinct namespaces ({mode}): expected {expect}, got: {line[:300]}',
+                               'case': {'generator': f'roxh nsscale {n} {mode}'}})
+        if len(res['samples']) < 2:
+            res['samples'].append({'nsscale': line[:120]})
+    # directed small families through the tie
+    cases = chk.gen_cases(exe, ['ns', 3 if tier == 'quick' else 40], seed)
+    extra_tie(pid, cfg, exe, chk, cases, seed, violations, broken, res)
+    return res
+
+def extra_tie(pid, cfg, exe, chk, cases, seed, violations, broken, res):
+    """run additional CASE lines through the normal implementation-vs-model comparison"""
+    import props as P
+    impl, model, crashes, drvfail = chk.run_cases(exe, cases, cfg['sections'], seed)
+    for cid, why, lines in crashes:
+        violations.append({'kind': 'crash', 'what': f'process {why} while handling this input', 'case': chk.case_text(lines), 'concrete': True})
+    n = 0
+    for cid, il in impl.items():
+        ml = model.get(cid)
+        info = chk.case_text(il)
+        txt = bytes.fromhex(info.get('text_hex', '')) if info else b''
+        n += 1
+        for f in cfg.get('impl_checks', ()):
+            for msg in f(il, txt):
+                violations.append({'kind': 'impl-oracle', 'what': msg, 'case': info, 'concrete': True})
+        if ml is None:
+            continue
+        for l in ml:
+            if l.startswith('OR ') and ' FAIL' in l and any(l.split(' ')[1].startswith(p) for p in cfg.get('oracles', ())):
+                violations.append({'kind': 'property-oracle', 'what': l, 'case': info, 'concrete': True})
+        if cfg.get('observable'):
+            di, dm = P.Dump(il, txt), P.Dump(ml, txt)
+            a, b = cfg['observable'](di, dm, il, ml)
+            if a != b and len(violations) < 200:
+                violations.append({'kind': 'observable-disagreement', 'concrete': True,
+                                   'what': 'implementation output differs from the proven model on the property\'s observable projection',
+                                   'case': info, 'impl': repr(a)[:600], 'model': repr(b)[:600]})
+        for tags in cfg.get('internal', ()):
+            a = [l for l in il if l.startswith(tags + ' ') or l == tags]
+            b = [l for l in ml if l.startswith(tags + ' ') or l == tags]
+            if a != b:
+                broken.append({'obligation': 'tie (internal sections)', 'examples': [{'section': tags, 'case': info, 'impl': a[:2], 'model': b[:2]}]})
+                break
+    res['evaluations'] = res.get('evaluations', 0) + n
+    res['extra_distinct'] = res.get('extra_distinct', 0) + len({tuple(l for l in il if l[:2] in ('N ', 'A ', 'RE')) for il in impl.values()})
+
+def sp_gen_tie(gens_quick, gens_thorough):
+    def f(pid, cfg, tier, seed, exe, chk, violations, broken, notes):
+        res = {'evaluations': 0, 'extra_distinct': 0}
+        cases = []
+        for spec in (gens_quick if tier == 'quick' else gens_thorough):
+            cases += chk.gen_cases(exe, spec, seed)
+        extra_tie(pid, cfg, exe, chk, cases, seed, violations, broken, res)
+        return res
+    return f
+
+def sp_verdict(cmd, gens_quick, gens_thorough, kind, also=None):
+    def f(pid, cfg, tier, seed, exe, chk, violations, broken, notes):
+        cases = []
+        for spec in (gens_quick if tier == 'quick' else gens_thorough):
+            cases += chk.gen_cases(exe, spec, seed)
+        ok, fails, crashes = run_verdicts(exe, cmd, seed, cases)
+        add_fails(violations, fails, kind)
+        for c in crashes:
+            violations.append({'kind': 'crash', 'what': f'roxh {cmd} died: {c}', 'concrete': True, 'case': {}})
+        res = {'evaluations': ok + len(fails), 'extra_distinct': ok, 'oracle_failures': len(fails),
+               'samples': [{'oracle': cmd, 'verdicts_ok': ok, 'verdicts_fail': len(fails)}]}
+        if also:
+            r2 = also(pid, cfg, tier, seed, exe, chk, violations, broken, notes) or {}
+            for k, v in r2.items():
+                if isinstance(v, int):
+                    res[k] = res.get(k, 0) + v
+                elif k == 'samples':
+                    res['samples'] += v
+                else:
+                    res[k] = v
+        return res
+    return f
+
+def sp_ord(pid, cfg, tier, seed, exe, chk, violations, broken, notes):
+    cases = chk.gen_cases(exe, ['model', 600 if tier == 'quick' else 6000, 0], seed)
+    r = subprocess.run([exe, 'ord', str(seed)], input='\n'.join(cases) + '\n', capture_output=True, text=True, env=ENV, timeout=900)
+    m = subprocess.run([chk.DRV, '--no-parse'], input=r.stdout, capture_output=True, text=True, timeout=900)
+    ib, mb = chk.blocks_of(r.stdout), chk.blocks_of(m.stdout)
+    n = bad = 0
+    for cid, il in ib.items():
+        n += 1
+        a = [l for l in il if l.startswith('ORD ')]
+        b = [l for l in mb.get(cid, []) if l.startswith('ORD ')]
+        if a != b:
+            bad += 1
+            k = 0
+            while k < len(a) and k < len(b) and a[k] == b[k]:
+                k += 1
+            violations.append({'kind': 'observable-disagreement', 'concrete': True,
+                               'what': 'equality / ordering / hashing matrix differs from the model (nodes given as docrank:id)',
+                               'case': {'generator': f'roxh ord (seed {seed}) block {cid}', 'nodes': a[0] if a else ''},
+                               'impl': a[k:k + 1], 'model': b[k:k + 1]})
+        # grouping: in the sorted sequence the nodes of one document are contiguous
+        nodes = sorted_ = None
+        for l in il:
+            if l.startswith('ORD nodes '):
+                nodes = [x.split(':')[0] for x in l[10:].split(',')]
+            if l.startswith('ORD sorted '):
+                sorted_ = [int(x) for x in l[11:].split(',')]
+        if nodes and sorted_:
+            seq = [nodes[i] for i in sorted_]
+            seen, prev = set(), None
+            for d in seq:
+                if d != prev and d in seen:
+                    violations.append({'kind': 'impl-oracle', 'concrete': True, 'what': f'sorted nodes of one document are not contiguous: {seq}',
+                                       'case': {'generator': f'roxh ord block {cid}'}})
+                    break
+                seen.add(d); prev = d
+    if r.returncode != 0:
+        violations.append({'kind': 'crash', 'what': f'roxh ord died rc={r.returncode} {r.stderr[-200:]}', 'concrete': True, 'case': {}})
+    return {'evaluations': n, 'extra_distinct': n, 'samples': [{'ord_blocks': n, 'differing': bad}]}
+
+FEATURE_SETS = [None, [], ['rox-std'], ['rox-positions']]
+
+def sp_features(pid, cfg, tier, seed, exe, chk, violations, broken, notes):
+    import props as P
+    cases = []
+    for spec in cfg['gens'][tier]:
+        cases += chk.gen_cases(exe, spec, seed)
+    dumps = {}
+    for fs in FEATURE_SETS:
+        name = 'default' if fs is None else ('none' if not fs else fs[0])
+        e, err = (exe, '') if fs is None else chk.build_harness(fs)
+        if e is None:
+            broken.append({'obligation': f'harness build with features {name}', 'detail': err[-1500:]})
+            continue
+        impl, _, crashes, _ = chk.run_cases(e, cases, 'arena', seed, want_model=False)
+        for cid, why, lines in crashes:
+            violations.append({'kind': 'crash', 'what': f'[{name}] process {why}', 'case': chk.case_text(lines), 'concrete': True})
+        dumps[name] = impl
+    base = dumps.get('default', {})
+    n = 0
+    for name, impl in dumps.items():
+        if name == 'default':
+            continue
+        for cid, il in base.items():
+            jl = impl.get(cid)
+            if jl is None:
+                continue
+            n += 1
+            info = chk.case_text(il)
+            txt = bytes.fromhex(info.get('text_hex', ''))
+            a, b = P.Dump(il, txt), P.Dump(jl, txt)
+            ra, rb = P.res_line(il), P.res_line(jl)
+            if ra != rb or (a.ok and a.content() != b.content()):
+                violations.append({'kind': 'impl-oracle', 'concrete': True,
+                                   'what': f'feature set {name} differs from default: {ra} vs {rb}', 'case': info})
+            if a.ok and 'positions' not in name and name != 'default':
+                # without `positions` no range is stored
+                pass
+    # histories: repeated and interleaved parses
+    ok, fails, crashes = run_verdicts(exe, 'repeat', seed, cases[:3000], jobs=4)
+    add_fails(violations, fails, 'impl-oracle')
+    return {'evaluations': n + ok, 'extra_distinct': 0, 'samples': [{'feature_sets': list(dumps.keys()), 'cross_comparisons': n, 'repeat_ok': ok}]}
+
+def sp_threads(pid, cfg, tier, seed, exe, chk, violations, broken, notes):
+    # building the harness at all discharges the Send/Sync obligations (cmd_threads instantiates
+    # them) and compiles the crate under -F unsafe_code (harness/.cargo/config.toml)
+    cfgtoml = open(os.path.join(chk.HARNESS, '.cargo', 'config.toml')).read()
+    if 'unsafe_code' not in cfgtoml:
+        broken.append({'obligation': 'unsafe ban', 'detail': 'harness is not built with -F unsafe_code'})
+    src = open('/repo/src/lib.rs').read()
+    notes.append('crate root has #![forbid(unsafe_code)]: ' + str('#![forbid(unsafe_code)]' in src))
+    for fn in os.listdir('/repo/src'):
+        if fn.endswith('.rs') and re.search(r'\bunsafe\b', re.sub(r'//.*', '', open(os.path.join('/repo/src', fn)).read())):
+            violations.append({'kind': 'impl-oracle', 'concrete': True, 'what': f'unsafe appears in src/{fn}', 'case': {'file': fn}})
+    cases = chk.gen_cases(exe, ['model', 150 if tier == 'quick' else 2000, 0], seed) + chk.gen_cases(exe, ['fixtures', 20000], seed)
+    ok, fails, crashes = run_verdicts(exe, 'threads', seed, cases, jobs=2)
+    add_fails(violations, fails, 'impl-oracle')
+    for c in crashes:
+        violations.append({'kind': 'crash', 'what': f'roxh threads died: {c}', 'concrete': True, 'case': {}})
+    return {'evaluations': ok + len(fails), 'extra_distinct': ok, 'samples': [{'threads': 16, 'documents_ok': ok}]}
+
+M = ['model', 1500, 10]
+MT = ['model', 20000, 10]
+SPECIALS = {
+    'scale_parse': sp_scale(False),
+    'scale_api': sp_scale(True),
+    'ns_scale': sp_ns_scale,
+    'hoist': sp_verdict('hoist', [['model', 3000, 0]], [['model', 40000, 0]], 'impl-oracle',
+                        also=sp_gen_tie([['entities', 8]], [['entities', 32]])),
+    'illform': sp_verdict('illform', [['model', 400, 0]], [['model', 5000, 0], ['fixtures', 3000]], 'impl-oracle',
+                          also=sp_gen_tie([['entity-boundary', 1], ['exotic', 10]], [['entity-boundary', 1], ['exotic', 100]])),
+    'entities': sp_gen_tie([['entities', 8], ['entity-boundary', 1]], [['entities', 32], ['entity-boundary', 1]]),
+    'shift': sp_verdict('shift', [M], [MT, ['mut', 5000, 400]], 'impl-oracle',
+                        also=sp_verdict('shapes', [M, ['fixtures', 4000]], [MT, ['fixtures', 20000]], 'impl-oracle')),
+    'errshift': sp_verdict('shift', [['model', 1500, 40], ['mut', 1500, 300]], [['model', 20000, 40], ['mut', 20000, 400]], 'impl-oracle',
+                           also=sp_gen_tie([['exotic', 10]], [['exotic', 100]])),
+    'limits': sp_verdict('limits', [M, ['mut', 500, 300]], [MT, ['mut', 10000, 400], ['entities', 16]], 'impl-oracle'),
+    'dtdpairs': sp_verdict('dtdpairs', [['model', 2000, 20], ['mut', 1000, 400], ['enum', 2, 0]],
+                           [['model', 30000, 20], ['mut', 20000, 1000], ['enum', 3, 0], ['fixtures', 20000]], 'impl-oracle'),
+    'ord': sp_ord,
+    'features': sp_features,
+    'threads': sp_threads,
+    'pieces_text': sp_gen_tie([['pieces2-text', 2], ['entities', 8], ['exotic', 10]], [['pieces2-text', 3], ['entities', 32], ['exotic', 100]]),
+    'pieces_attr': sp_gen_tie([['pieces2-attr', 2], ['entities', 8], ['exotic', 10]], [['pieces2-attr', 3], ['entities', 32], ['exotic', 100]]),
+    'markup': sp_gen_tie([['exotic', 10], ['entity-boundary', 1]], [['exotic', 100], ['entity-boundary', 1]]),
+    'tree': sp_gen_tie([['entity-boundary', 1], ['entities', 4]], [['entity-boundary', 1], ['entities', 32]]),
+}
